@@ -282,10 +282,13 @@ parse_next_record_header:
             /* There is more data to be parsed */
             goto parse_next_record_header; /* Ignore, as per spec. */
         }
-        /* Done - tell the caller what we've consumed. */
+        /* Done - tell the caller what we've consumed: all of it, and no
+           alert is being sent (the caller tests both on SSL_SEND_RESPONSE
+           and has not initialised either). */
         *in += parsedBytes;
         *len -= parsedBytes;
-        *remaining -= PS_MIN(parsedBytes, *remaining);
+        *remaining = 0;
+        *alertDescription = SSL_ALERT_NONE;
         /* If there's handshake message waiting in outbuf then send it */
         if (ssl->outlen > 0)
         {
